@@ -122,10 +122,10 @@ theorem good_markRegion {w h : Int} {b : Update.Client} {r : Region} (hg : Good 
   obtain ⟨h1, h2⟩ := inside_or hg.mwf hr hg.min hi
   exact ⟨h1, hg.cwf, hg.rwf, h2, hg.cin⟩
 
-theorem good_setEncodings {s : Update.Screen} {b : Update.Client} (cr cs : Bool)
+theorem good_setEncodings0 {s : Update.Screen} {b : Update.Client} (cr cs : Bool)
     (hw : 1 ≤ s.width) (hh : 1 ≤ s.height) (hg : Good s.width s.height b) :
-    Good s.width s.height (Update.setEncodings s b cr cs) := by
-  unfold Update.setEncodings
+    Good s.width s.height (Update.setEncodings0 s b cr cs) := by
+  unfold Update.setEncodings0
   simp only
   split
   · cases hc : cursorBox s b.cursorX b.cursorY with
@@ -135,6 +135,21 @@ theorem good_setEncodings {s : Update.Screen} {b : Update.Client} (cr cs : Bool)
       obtain ⟨h3, h4⟩ := inside_or hg.mwf h1 hg.min h2
       exact ⟨h3, hg.cwf, hg.rwf, h4, hg.cin⟩
   · exact ⟨hg.mwf, hg.cwf, hg.rwf, hg.min, hg.cin⟩
+
+/-- the tail of the SetEncodings handler (a client dropping CopyRect): the pending copy becomes
+modified region — still inside the screen -/
+theorem good_dropCopy {w h : Int} {b : Update.Client} (hg : Good w h b) :
+    Good w h (Update.dropCopy b) := by
+  unfold Update.dropCopy
+  split
+  · obtain ⟨h1, h2⟩ := inside_or hg.mwf hg.cwf hg.min hg.cin
+    exact ⟨h1, wf_empty, hg.rwf, h2, inside_empty _ _⟩
+  · exact hg
+
+theorem good_setEncodings {s : Update.Screen} {b : Update.Client} (cr cs : Bool)
+    (hw : 1 ≤ s.width) (hh : 1 ≤ s.height) (hg : Good s.width s.height b) :
+    Good s.width s.height (Update.setEncodings s b cr cs) :=
+  good_dropCopy (good_setEncodings0 cr cs hw hh hg)
 
 theorem good_scheduleCopy {s : Update.Screen} {b : Update.Client} {rg : Region} (dx dy : Int)
     (hg : Good s.width s.height b) (hr : rg.WF) (hi : Inside s.width s.height rg) :
